@@ -287,7 +287,7 @@ let handle_emit rest =
   let (defs, _) = take_count p_nvdef r in
   let n = { nv_top = top; nv_defs = defs } in
   match emit o n with
-  | WOk d -> "ok {\"doc\":" ^ jlist (List.map jmodule d) ^ ",\"rt\":" ^ (if rt_check o n then "true" else "false") ^ "}"
+  | WOk d -> "ok {\"doc\":" ^ jlist (List.map jmodule d) ^ ",\"rt\":" ^ (if rt_check o n then "true" else "false") ^ ",\"writable\":" ^ (if writable o n then "true" else "false") ^ "}"
   | WErr e -> "err " ^ err_str e
   | WUnsup u -> "unsup " ^ wunsup_str u
 
